@@ -18,6 +18,7 @@ def P(qr, qw, tr, tw, **kw):
 PLAN = {
     "C01": P(6000, 75, 200000, 900),
     "C02": P(5000, 75, 150000, 900),
+    "C11": P(1200, 100, 30000, 1200, chunk=150),
     "C10": P(1200, 100, 30000, 1200, chunk=150),
     "C09": P(1200, 100, 30000, 1200, chunk=150),
     "C08": P(2500, 90, 60000, 900),
@@ -28,6 +29,11 @@ PLAN = {
 }
 
 LEVELS = {
+    "C11": {"level": "exploration", "rule": RULE,
+            "text": "1..8 splits over 6 shared paths with contents from a 3-value alphabet (forcing identical duplicates) are uploaded by separate clients at distinct simulated times (some concurrently); the diamond is cloned object-for-object and committed six times (conflicts x2, ignore, checkpoints x2, forbid), each time with the arrival order of the split file lists chosen by the scheduler among all parked index-file reads. Oracle computed from the stored split entries only: latest upload time wins per path, every distinct losing version kept under the split that uploaded it, identical contents are no conflicts, no side paths in ignore mode, forbid fails iff two splits differ on a path, flags consistent, same-mode commits identical (order independence), main tree identical across modes, single-split diamond == plain upload",
+            "note": "exact ties of upload stamps between different contents are accepted either way; trusts simstore",
+            "components": {"real": ["pkg/core diamond/split/commit/index", "pkg/cafs", "pkg/model"], "stub": STUB},
+            "assumptions": ["tiny files, default or small leaf size"]},
     "C10": {"level": "fault_enumeration", "rule": RULE + "; leftovers are produced by real uploads killed at a tape-chosen write before the descriptor",
             "text": "histories of 0..40 tiny committed bundles with semver / non-semver labels and leftovers of uploads crashed at chosen store writes (also as the newest object of the repository), squashed with retain-N 1..5 x {none, retain-tags, retain-semver-tags}; a second configuration crashes the squash itself at a chosen write and re-runs it. Oracle: the visible bundles are exactly the last N committed plus the labelled ones per option, each downloading to its content, labels exactly those of kept bundles, the most recent committed bundle always kept, the neighbouring repository byte-identical",
             "note": "what happens to leftovers themselves is not asserted (they are not bundles); trusts simstore",
